@@ -64,9 +64,9 @@ func init() {
 	registerExec("sum", hSum)
 	registerExec("iter", hIter)
 	registerExec("iterm", hIterM)
-	registerExec("setu", func(st *State, a []string) string { return withUnhashed(func() string { return hSet(st, a) }) })
-	registerExec("appu", func(st *State, a []string) string { return withUnhashed(func() string { return hApp(st, a) }) })
-	registerExec("chgu", func(st *State, a []string) string { return withUnhashed(func() string { return hChg(st, a) }) })
+	registerExec("setu", func(st *State, a []string) string { return withUnhashed(st, func() string { return hSet(st, a) }) })
+	registerExec("appu", func(st *State, a []string) string { return withUnhashed(st, func() string { return hApp(st, a) }) })
+	registerExec("chgu", func(st *State, a []string) string { return withUnhashed(st, func() string { return hChg(st, a) }) })
 	registerExec("obsg", hObsg)
 	registerExec("iterget", hIterGet)
 	registerExec("rehash", hRehash)
@@ -239,16 +239,14 @@ func setElem(hd *handle, i uint64, el view.View) error {
 
 // setu / appu / chgu: as set / app / chg, but the inserted value has never been hashed (C06: the
 // result must not depend on which roots were requested before, the inserted value's included)
-var insertUnhashed bool
-
-func withUnhashed(f func() string) string {
-	insertUnhashed = true
-	defer func() { insertUnhashed = false }()
+func withUnhashed(st *State, f func() string) string {
+	st.unhashed = true
+	defer func() { st.unhashed = false }()
 	return f()
 }
 
-func preHash(el view.View) {
-	if !insertUnhashed {
+func preHash(st *State, el view.View) {
+	if !st.unhashed {
 		el.HashTreeRoot(tree.Hash) // the inserted value is hashed beforehand (C07 premise)
 	}
 }
@@ -269,7 +267,7 @@ func hSet(st *State, a []string) string {
 	if err != nil {
 		return "err"
 	}
-	preHash(el)
+	preHash(st, el)
 	return errStr(setElem(hd, i, el))
 }
 
@@ -289,7 +287,7 @@ func hApp(st *State, a []string) string {
 	if err != nil {
 		return "err"
 	}
-	preHash(el)
+	preHash(st, el)
 	switch x := hd.vw.(type) {
 	case *view.BasicListView:
 		return errStr(x.Append(el.(view.BasicView)))
@@ -334,7 +332,7 @@ func hChg(st *State, a []string) string {
 	if err != nil {
 		return "err"
 	}
-	preHash(el)
+	preHash(st, el)
 	return errStr(u.Change(uint8(sel), el))
 }
 
